@@ -43,6 +43,8 @@ func main() {
 		code = cmdFunc(os.Args[2:])
 	case "lock":
 		code = cmdLock(os.Args[2:])
+	case "sweep":
+		code = cmdSweep(os.Args[2:])
 	case "list":
 		code = cmdList(os.Args[2:])
 	case "replay":
@@ -174,6 +176,7 @@ type checkRun struct {
 	skipped  int
 	solveSec float64
 	wins     map[string]int
+	covers   int
 }
 
 func selectObligations(fr *FuncResult, prop string) (sel []*Obligation, skipped int) {
@@ -264,6 +267,18 @@ func cmdCheck(args []string) int {
 		confirm = true
 	}
 	run.solveSec, run.wins = solveAll(run.obls, timeout, confirm)
+	// vacuity: entry and every return of each function must be reachable under its assumptions
+	for _, fr := range run.results {
+		if vac := solveCovers(fr.Covers, timeout); vac > 0 {
+			for _, c := range fr.Covers {
+				if c.Result.Status == "unsat" {
+					fmt.Printf("VACUOUS %s: unreachable under the contract's assumptions\n", c.Name)
+				}
+			}
+			engineErr = true
+		}
+		run.covers += len(fr.Covers)
+	}
 	code := report(run, time.Since(t0).Seconds(), *verbose, *keep, engineErr)
 	return code
 }
@@ -409,6 +424,7 @@ func writeEvidence(run *checkRun, total, discharged, knownHits, violations int, 
 			"load_seconds":             round3(run.prog.loadSecs),
 			"samples":                  samples,
 			"skipped_other_properties": run.skipped,
+			"cover_points_reachable":   run.covers,
 			"contract_files":           run.prog.contracts.Files,
 			"engine_warnings":          warnings,
 		},
@@ -444,6 +460,7 @@ func cmdFunc(args []string) int {
 	safety := fs.Bool("safety", false, "generate panic-freedom obligations")
 	dump := fs.Bool("dump", false, "dump queries of failing obligations")
 	timeout := fs.Int("t", 10, "solver timeout")
+	cover := fs.Bool("cover", false, "check reachability of entry and returns (vacuity)")
 	fs.Parse(args)
 	prog := mustLoad()
 	var fn *ssa.Function
@@ -475,6 +492,15 @@ func cmdFunc(args []string) int {
 				os.WriteFile(p, []byte(o.smt.Query(o.prefix, o.pc, not(o.goal))+"(get-model)\n"), 0o644)
 				fmt.Println("    query:", p)
 			}
+		}
+	}
+	if *cover {
+		vac := solveCovers(res.Covers, *timeout)
+		for _, c := range res.Covers {
+			fmt.Printf("  cover %-8s %s\n", c.Result.Status, c.Name)
+		}
+		if vac > 0 {
+			fmt.Printf("VACUOUS: %d cover points are unreachable under the assumptions\n", vac)
 		}
 	}
 	fmt.Printf("%d obligations, %d not discharged; trusted: %v\n", len(res.Obls), bad, res.Trusted)
@@ -547,4 +573,97 @@ func cmdLock(args []string) int {
 	os.WriteFile(filepath.Join(verifDir, "obligations.lock"), []byte(strings.Join(out, "\n")+"\n"), 0o644)
 	fmt.Printf("wrote %d lock entries\n", len(out)-1)
 	return 0
+}
+
+var sweepPkgs = []string{"/cmd/rdpgw/protocol", "/cmd/rdpgw/transport", "/cmd/rdpgw/security", "/cmd/rdpgw/web", "/cmd/rdpgw/kdcproxy", "/cmd/rdpgw/identity", "/cmd/rdpgw/config", "/cmd/auth/ntlm", "/cmd/auth/database", "/cmd/auth/config"}
+
+// sweepFunctions lists every non-generated function (and closure) of the
+// packages that handle client input.
+func sweepFunctions(prog *Program) []*ssa.Function {
+	var fns []*ssa.Function
+	for k, fn := range prog.funcByKey {
+		i := strings.Index(k, "|")
+		if i < 0 || len(fn.Blocks) == 0 {
+			continue
+		}
+		ok := false
+		for _, sp := range sweepPkgs {
+			if k[:i] == repoModule+sp {
+				ok = true
+			}
+		}
+		if !ok || fn.Synthetic != "" || fn.Name() == "init" {
+			continue
+		}
+		if pos := fn.Pos(); pos.IsValid() {
+			file := prog.fset.Position(pos).Filename
+			if strings.HasSuffix(file, "_test.go") || strings.HasSuffix(file, ".pb.go") {
+				continue
+			}
+		}
+		fns = append(fns, fn)
+	}
+	sort.Slice(fns, func(i, j int) bool { return prog.relName(fns[i]) < prog.relName(fns[j]) })
+	return fns
+}
+
+func cmdSweep(args []string) int {
+	fs := flag.NewFlagSet("sweep", flag.ExitOnError)
+	only := fs.String("pkg", "", "restrict to functions whose name has this prefix")
+	fs.Parse(args)
+	prog := mustLoad()
+	var all []*Obligation
+	for _, fn := range sweepFunctions(prog) {
+		if *only != "" && !strings.HasPrefix(prog.relName(fn), *only) {
+			continue
+		}
+		res := verifyFunction(prog, fn, prog.contractFor(fn), VerifyOpts{Safety: true, SafetyTags: []string{"C10"}})
+		for _, u := range res.Unsupp {
+			fmt.Printf("ENGINE-LIMIT %s: %s\n", prog.relName(fn), u)
+		}
+		for _, o := range res.Obls {
+			if hasTag(o.Tags, "C10") {
+				all = append(all, o)
+			}
+		}
+	}
+	solveAll(all, 10, false)
+	bad := 0
+	for _, o := range all {
+		if o.Result.Status != "unsat" {
+			bad++
+			fmt.Printf("  %-8s %s   (%s)\n", o.Result.Status, o.Name, o.Pos)
+		}
+	}
+	fmt.Printf("%d safety obligations, %d not discharged\n", len(all), bad)
+	return 0
+}
+
+// solveCovers checks that entry and return points are reachable under the
+// assumptions (a contradictory precondition or invariant would make every
+// obligation pass). Only "unsat" counts as vacuous.
+func solveCovers(cs []*Cover, timeoutS int) int {
+	var wg sync.WaitGroup
+	sem := make(chan struct{}, 12)
+	for _, c := range cs {
+		wg.Add(1)
+		go func(c *Cover) {
+			defer wg.Done()
+			sem <- struct{}{}
+			defer func() { <-sem }()
+			r := Solve(c.smt.Query(c.prefix, c.pc), timeoutS, false, c.Name)
+			c.Result = &r
+			if r.Status == "unsat" && os.Getenv("GOCV_DUMP_COVER") != "" {
+				os.WriteFile(filepath.Join(verifDir, ".work", sanitize(c.Name)+".cover.smt2"), []byte(c.smt.Query(c.prefix, c.pc)), 0o644)
+			}
+		}(c)
+	}
+	wg.Wait()
+	vac := 0
+	for _, c := range cs {
+		if c.Result.Status == "unsat" {
+			vac++
+		}
+	}
+	return vac
 }
